@@ -70,16 +70,19 @@ CHECKS = {
             "the worker / consumer / state machine thread against the rest of the teardown.",
             "Trusted: as C04. A close() issued before the connection is Open only clears a flag that the capabilities exchange "
             "sets again (the connection does not end): outside the statement.", "4 C08"),
-    "C06": ("TLA+ state machine spec/Psm.tla (one action per tick + environment events) model-checked by TLC for both roles until "
-            "the reachable set closes: 11 action properties + ClosedImpliesReleased; four historic deviations shown to violate "
+    "C06": ("TLA+ state machine spec/Psm.tla (one action per tick + environment events, including the send queue with its batching "
+            "rule and application submissions) model-checked by TLC for both roles until the reachable set closes: 13 action "
+            "properties + ClosedImpliesReleased; five historic deviations shown to violate "
             "them; the dumped state graph covered by edge-covering tours on the real threaded node under a deterministic "
             "scheduler (state machine thread advanced tick by tick), projection compared with TLC successors after every step",
             "Every (state, event) group of the closed model (all 14 message values, local stop, peer disconnect, idle timeout, "
-            "connect ack/nack, restart) is executed on a real Diameter object with all its threads.",
+            "connect ack/nack, application submissions building a backlog, restart) is executed on a real Diameter object with all "
+            "its threads.",
             "Trusted: TLC, engine/vsched.py (scheduler, fake socket/selector, timer rule), adapters/node.py. Receive queue bound "
             "1 (quick) / 2 (thorough) for the toured graph; bound 2 model-checked in both tiers.", "4 C06"),
     "C07": ("Same specification and binding as C06 (spec/Psm.tla, property AnswersEcho and per-step output), configured with two "
-            "identifier values mapped to boundary Hop-by-Hop/End-to-End pairs, receive queue 2, restart on the same node object; "
+            "identifier values mapped to boundary Hop-by-Hop/End-to-End pairs, receive queue 2, a backlog of up to two application "
+            "batches in the send queue, restart on the same node object; "
             "emitted CEA/DWA/DPA decoded from the bytes written to the fake socket",
             "Back-to-back answerable requests with different identifiers, mixed with application traffic, in every state that "
             "answers them, across reconnects; quick tier tours 2500 steps per role, thorough tier the whole graph.",
